@@ -133,11 +133,12 @@ func c03Mut(tier string) int {
 func init() {
 	nAdv := len(c03Adversarial())
 	fw.Register(&fw.Prop{
-		ID:    "C03",
-		Title: "Decoding never crashes: any input yields a document or an error",
-		Cases: func(tier string, seed uint64) int { return nAdv + c03Rand(tier) + c03Mut(tier) },
-		Run:   c03Run,
-		Extra: c03Fuzz,
+		ID:      "C03",
+		CaseCPU: 20,
+		Title:   "Decoding never crashes: any input yields a document or an error",
+		Cases:   func(tier string, seed uint64) int { return nAdv + c03Rand(tier) + c03Mut(tier) },
+		Run:     c03Run,
+		Extra:   c03Fuzz,
 		Rule: "each input decoded under all 4 combinations of AllowMultiLine x AllowInvalidIndents with recover() and classification; process-fatal crashes and hangs attributed by the supervisor. Inputs: enumerated structure-aware adversarial list (first line at level 1..12, role tags before/outside/after families, records nested in records, malformed xrefs, level overflow, BOM variants, 1 MB line, 100k blank lines, 3000-deep nesting), random GEDCOM-biased byte strings (50 per case), truncated/byte-mutated generated files (50 per case). " +
 			"non-trivial = input has a line with a leading digit (reaches the line parser); distinct by hash of bytes+options",
 		Floors: func(a *fw.Agg, tier string) []string {
